@@ -72,6 +72,8 @@ def case(draw):
         "no_wrap": draw(st.sampled_from([False, False, False, True])),
         "tab_size": draw(st.integers(1, 8)),
         "via": draw(st.sampled_from(["wrap", "wrap", "render"])),
+        # the Text's own attributes disagree with the arguments given to wrap(): the arguments win
+        "own": draw(st.one_of(st.none(), st.none(), st.tuples(st.sampled_from([None, "crop", "ellipsis", "fold", "ignore"]), st.sampled_from([None, "left", "center", "right", "full"]), st.sampled_from([None, False, True])).map(list))),
         "prelude": draw(st.one_of(st.none(), st.none(), st.tuples(st.sampled_from(["crop", "ellipsis", "fold", "ignore"]), st.sampled_from(["default", "left", "center", "right", "full"]), st.booleans(), st.booleans()).map(list))),
     }
 
@@ -102,7 +104,12 @@ class Wrap(Part):
         width = spec["width"]
         spans = [Span(a, b, GS.build_style(PAL[s])) for a, b, s in spec["spans"]]
         base = GS.build_style(spec["base"]) if spec["base"] else ""
-        t = sut(Text, text, style=base, spans=list(spans), tab_size=spec["tab_size"])
+        own = spec.get("own") if spec["via"] == "wrap" else None
+        if own:
+            t = sut(Text, text, style=base, spans=list(spans), tab_size=spec["tab_size"], overflow=own[0], justify=own[1], no_wrap=own[2])
+            ctx.cls("own-attributes-differ")
+        else:
+            t = sut(Text, text, style=base, spans=list(spans), tab_size=spec["tab_size"])
         con = TV.console()
         overflow, justify, no_wrap = spec["overflow"], spec["justify"], spec["no_wrap"]
         prelude = spec.get("prelude")
